@@ -99,7 +99,7 @@ func c10Produce(c *runner.Ctx, w iceImpl) (b []byte, desc string, kind string, e
 		_, err := s.WriteTo(&buf, nil)
 		return buf.Bytes(), err
 	}
-	jumbo := c.Idx < 4 || (c.Tier == "thorough" && c.Idx < 60)
+	jumbo := c.Idx%150 < 2
 	if c.Idx%2 == 0 { // builder output
 		var docs []*model.MDoc
 		var mode uint32
@@ -349,8 +349,8 @@ func init() {
 			"oracle = equality of observation texts of two readers on the same bytes (never byte equality of two writers); evaluations = files; non-trivial = every file both readers agree on, distinct by content hash / golden name",
 		Assumptions: append([]string{"harness/refice is trusted as the pinned reference reader/writer (diff against the pinned commit: refice/PINNED.diff)", "golden files were written by commit 76983be with only the verif hook file added"}, InputContract...),
 		Phases: []runner.Phase{
-			{Name: "current-writer", Cases: cases(600, 12000), Run: c10CrossRun},
-			{Name: "reference-writer", Cases: cases(600, 12000), Run: c10CrossRun},
+			{Name: "current-writer", Cases: cases(5000, 120000), Run: c10CrossRun},
+			{Name: "reference-writer", Cases: cases(5000, 120000), Run: c10CrossRun},
 			{Name: "golden", Cases: func(string) int { return len(goldenNames()) }, Run: c10GoldenRun},
 		},
 		Floors: func(string) map[string]int64 {
